@@ -57,7 +57,7 @@ fn kill_worker(w: &mut Worker) {
     }
     let _ = w.child.kill();
     let _ = w.child.wait();
-    let _ = std::fs::remove_dir_all(format!("/verif/scratch/w{pid}"));
+    let _ = std::fs::remove_dir_all(format!("{}/scratch/w{pid}", pvcore::run::verif_root()));
 }
 
 fn run_one(w: &mut Option<Worker>, job: &Value, deadline: Duration) -> Option<Value> {
